@@ -185,3 +185,474 @@ Proof.
   - unfold kf_doc_refused, kf_x_refused. cbn. apply V_elem; [apply Permutation_refl|].
     constructor; [|constructor]. apply V_elem; [apply Permutation_refl|constructor].
 Qed.
+
+(* ------------------------------------------------------------------------- *)
+(** * Enumerations: an invalid value is refused with 400, before any backend call.
+
+    [doc_bad_enum d]: somewhere the decoder looks — the test attribute of the filter
+    or of a prop-filter, negate-condition / match-type of a text-match below a
+    prop-filter or a param-filter — the document [d] carries a string outside the
+    RFC's value list.  The statement is about every tree, not only about variants of
+    written requests. *)
+
+Definition o4 {A} (r : res A) : Prop :=
+  match r with Ok _ => True | Err c => c = 400%N | Panic => False end.
+
+Definition bad_test_attr (l v : string) : bool :=
+  String.eqb l "test" && negb (is_some (val_test (Some v))).
+Definition bad_tm_attr (l v : string) : bool :=
+  (String.eqb l "negate-condition" && negb (is_some (val_negate (Some v))))
+  || (String.eqb l "match-type" && negb (is_some (val_match (Some v)))).
+Definition attrs_bad (bad : string -> string -> bool) (a : list attr) : bool :=
+  existsb (fun x => bad (snd (fst x)) (snd x)) a.
+Definition kids_bad (badk : qname -> list attr -> list xtree -> bool) (kids : list xtree) : bool :=
+  existsb (fun t => match t with Elem n a k => badk n a k | _ => false end) kids.
+Definition tm_bad (n : qname) (a : list attr) (k : list xtree) : bool :=
+  String.eqb (snd n) "text-match" && attrs_bad bad_tm_attr a.
+Definition pa_bad (n : qname) (a : list attr) (k : list xtree) : bool :=
+  String.eqb (snd n) "param-filter" && kids_bad tm_bad k.
+Definition pf_bad (n : qname) (a : list attr) (k : list xtree) : bool :=
+  String.eqb (snd n) "prop-filter"
+  && (attrs_bad bad_test_attr a || kids_bad (fun n a k => tm_bad n a k || pa_bad n a k) k).
+Definition f_bad (n : qname) (a : list attr) (k : list xtree) : bool :=
+  String.eqb (snd n) "filter" && (attrs_bad bad_test_attr a || kids_bad pf_bad k).
+Definition doc_bad_enum (d : xtree) : bool :=
+  match d with
+  | Elem n a k => qname_eqb n (C "addressbook-query") && kids_bad f_bad k
+  | _ => false
+  end.
+
+Lemma assign_o4 {W} (set : string -> string -> W -> res W) :
+  (forall l v w, o4 (set l v w)) -> forall a w, o4 (assign_attrs set w a).
+Proof.
+  intros H. induction a as [|x a IH]; intros w; simpl; auto.
+  specialize (H (snd (fst x)) (snd x) w). destruct (set (snd (fst x)) (snd x) w); simpl in *; auto.
+Qed.
+
+Lemma assign_fail {W} (set : string -> string -> W -> res W) (bad : string -> string -> bool) :
+  (forall l v w, o4 (set l v w)) ->
+  (forall l v w, bad l v = true -> set l v w = Err 400) ->
+  forall a w, attrs_bad bad a = true -> assign_attrs set w a = Err 400.
+Proof.
+  intros H4 Hb. unfold attrs_bad. induction a as [|x a IH]; intros w E; simpl in *; [discriminate|].
+  unfold attr, qname in *.
+  apply orb_true_iff in E. destruct E as [E|E].
+  - rewrite (Hb _ _ w E). reflexivity.
+  - specialize (H4 (snd (fst x)) (snd x) w).
+    destruct (set (snd (fst x)) (snd x) w); simpl in *; [apply IH, E|congruence|contradiction].
+Qed.
+
+Lemma walk_o4 {W} (step : qname -> list attr -> list xtree -> W -> res W) :
+  (forall n a k w, o4 (step n a k w)) -> forall kids w, o4 (walk_kids step w kids).
+Proof.
+  intros H. induction kids as [|x kids IH]; intros w; simpl; auto.
+  destruct x; auto. specialize (H n attrs kids0 w). destruct (step n attrs kids0 w); simpl in *; auto.
+Qed.
+
+Lemma walk_fail {W} (step : qname -> list attr -> list xtree -> W -> res W) badk :
+  (forall n a k w, o4 (step n a k w)) ->
+  (forall n a k w, badk n a k = true -> step n a k w = Err 400) ->
+  forall kids w, kids_bad badk kids = true -> walk_kids step w kids = Err 400.
+Proof.
+  intros H4 Hb. unfold kids_bad. induction kids as [|x kids IH]; intros w E; simpl in *; [discriminate|].
+  destruct x as [n a k| |]; simpl in E; auto.
+  apply orb_true_iff in E. destruct E as [E|E].
+  - rewrite (Hb _ _ _ w E). reflexivity.
+  - specialize (H4 n a k w). destruct (step n a k w); simpl in *; [apply IH, E|congruence|contradiction].
+Qed.
+
+Lemma o4_bind {A B} (r : res A) (f : A -> res B) : o4 r -> (forall a, o4 (f a)) -> o4 (bind r f).
+Proof. destruct r; simpl; auto. Qed.
+
+Lemma o4_ft v : o4 (unmarshal_filter_test v).
+Proof. unfold unmarshal_filter_test. destruct (_ || _); simpl; auto. Qed.
+Lemma o4_mt v : o4 (unmarshal_match_type v).
+Proof. unfold unmarshal_match_type. destruct (_ || _); simpl; auto. Qed.
+Lemma o4_ng v : o4 (unmarshal_negate v).
+Proof. unfold unmarshal_negate. destruct (String.eqb v "yes"), (String.eqb v "no"); simpl; auto. Qed.
+Lemma o4_uint s : o4 (unmarshal_uint s).
+Proof. unfold unmarshal_uint. destruct (str_empty s); simpl; auto. destruct (parse_uint64 _); simpl; auto. Qed.
+
+Lemma o4_tm_set l v w : o4 (tm_set l v w).
+Proof.
+  unfold tm_set. destruct (String.eqb l "collation"); simpl; auto.
+  destruct (String.eqb l "negate-condition"); [apply o4_bind; [apply o4_ng|simpl; auto]|].
+  destruct (String.eqb l "match-type"); [apply o4_bind; [apply o4_mt|simpl; auto]|]. simpl; auto.
+Qed.
+
+Lemma o4_tm w0 n a k : o4 (unmarshal_text_match w0 n a k).
+Proof.
+  unfold unmarshal_text_match. destruct (negb _); simpl; auto.
+  apply o4_bind; [apply assign_o4, o4_tm_set|simpl; auto].
+Qed.
+
+Lemma o4_pa_set l v w : o4 (pa_set l v w).
+Proof. unfold pa_set. destruct (String.eqb l "name"); simpl; auto. Qed.
+
+Lemma o4_pa_step n a k w : o4 (pa_step n a k w).
+Proof.
+  unfold pa_step. destruct (String.eqb (snd n) "is-not-defined"); simpl; auto.
+  destruct (String.eqb (snd n) "text-match"); simpl; auto.
+  apply o4_bind; [apply o4_tm|simpl; auto].
+Qed.
+
+Lemma o4_pa w0 n a k : o4 (unmarshal_param_filter w0 n a k).
+Proof.
+  unfold unmarshal_param_filter. destruct (negb _); simpl; auto.
+  apply o4_bind; [apply assign_o4, o4_pa_set|intros; apply walk_o4, o4_pa_step].
+Qed.
+
+Lemma o4_pf_set l v w : o4 (pf_set l v w).
+Proof.
+  unfold pf_set. destruct (String.eqb l "name"); simpl; auto.
+  destruct (String.eqb l "test"); simpl; auto. apply o4_bind; [apply o4_ft|simpl; auto].
+Qed.
+
+Lemma o4_pf_step n a k w : o4 (pf_step n a k w).
+Proof.
+  unfold pf_step. destruct (String.eqb (snd n) "is-not-defined"); simpl; auto.
+  destruct (String.eqb (snd n) "text-match"); [apply o4_bind; [apply o4_tm|simpl; auto]|].
+  destruct (String.eqb (snd n) "param-filter"); [apply o4_bind; [apply o4_pa|simpl; auto]|]. simpl; auto.
+Qed.
+
+Lemma o4_pf w0 n a k : o4 (unmarshal_prop_filter w0 n a k).
+Proof.
+  unfold unmarshal_prop_filter. destruct (negb _); simpl; auto.
+  apply o4_bind; [apply assign_o4, o4_pf_set|intros; apply walk_o4, o4_pf_step].
+Qed.
+
+Lemma o4_f_set l v w : o4 (f_set l v w).
+Proof. unfold f_set. destruct (String.eqb l "test"); simpl; auto. apply o4_bind; [apply o4_ft|simpl; auto]. Qed.
+
+Lemma o4_f_step n a k w : o4 (f_step n a k w).
+Proof.
+  unfold f_step. destruct (String.eqb (snd n) "prop-filter"); simpl; auto.
+  apply o4_bind; [apply o4_pf|simpl; auto].
+Qed.
+
+Lemma o4_f w0 n a k : o4 (unmarshal_filter w0 n a k).
+Proof.
+  unfold unmarshal_filter. destruct (negb _); simpl; auto.
+  apply o4_bind; [apply assign_o4, o4_f_set|intros; apply walk_o4, o4_f_step].
+Qed.
+
+Lemma o4_lim_step n a k w : o4 (lim_step n a k w).
+Proof. unfold lim_step. destruct (String.eqb (snd n) "nresults"); simpl; auto. apply o4_uint. Qed.
+
+Lemma o4_limit w0 n a k : o4 (unmarshal_limit w0 n a k).
+Proof. unfold unmarshal_limit. destruct (negb _); simpl; auto. apply walk_o4, o4_lim_step. Qed.
+
+Lemma o4_q_step n a k w : o4 (q_step n a k w).
+Proof.
+  unfold q_step. destruct (qname_eqb n (NS_DAV, "prop")); simpl; auto.
+  destruct (qname_eqb n (NS_DAV, "allprop")); simpl; auto.
+  destruct (qname_eqb n (NS_DAV, "propname")); simpl; auto.
+  destruct (String.eqb (snd n) "filter"); [apply o4_bind; [apply o4_f|simpl; auto]|].
+  destruct (String.eqb (snd n) "limit"); [apply o4_bind; [apply o4_limit|simpl; auto]|]. simpl; auto.
+Qed.
+
+(** the decoding of a request document never panics and fails with 400 only *)
+Lemma o4_unmarshal_query n a k : o4 (unmarshal_query n a k).
+Proof. unfold unmarshal_query. destruct (negb _); simpl; auto. apply walk_o4, o4_q_step. Qed.
+
+Lemma none_not_some {A} (o : option A) : negb (is_some o) = true -> o = None.
+Proof. destruct o; simpl; [discriminate|reflexivity]. Qed.
+
+Lemma bad_test_fails v : val_test (Some v) = None -> unmarshal_filter_test v = Err 400.
+Proof.
+  unfold val_test, unmarshal_filter_test. destruct (String.eqb v "anyof"); [discriminate|].
+  destruct (String.eqb v "allof"); [discriminate|reflexivity].
+Qed.
+Lemma bad_match_fails v : val_match (Some v) = None -> unmarshal_match_type v = Err 400.
+Proof.
+  unfold val_match, unmarshal_match_type. destruct (String.eqb v "equals"); [discriminate|].
+  destruct (String.eqb v "contains"); [discriminate|]. destruct (String.eqb v "starts-with"); [discriminate|].
+  destruct (String.eqb v "ends-with"); [discriminate|reflexivity].
+Qed.
+Lemma bad_negate_fails v : val_negate (Some v) = None -> unmarshal_negate v = Err 400.
+Proof.
+  unfold val_negate, unmarshal_negate. destruct (String.eqb v "yes"); [discriminate|].
+  destruct (String.eqb v "no"); [discriminate|reflexivity].
+Qed.
+
+Lemma tm_set_bad l v w : bad_tm_attr l v = true -> tm_set l v w = Err 400.
+Proof.
+  unfold bad_tm_attr, tm_set. intros H. apply orb_true_iff in H. destruct H as [H|H];
+    apply andb_true_iff in H; destruct H as [Hl Hv]; apply String.eqb_eq in Hl; subst l;
+    apply none_not_some in Hv; simpl.
+  - rewrite (bad_negate_fails _ Hv). reflexivity.
+  - rewrite (bad_match_fails _ Hv). reflexivity.
+Qed.
+
+Lemma tm_fails w0 n a k : tm_bad n a k = true -> unmarshal_text_match w0 n a k = Err 400.
+Proof.
+  unfold tm_bad, unmarshal_text_match. intros H. apply andb_true_iff in H. destruct H as [_ H].
+  destruct (negb _); [reflexivity|].
+  rewrite (assign_fail tm_set bad_tm_attr o4_tm_set tm_set_bad a w0 H). reflexivity.
+Qed.
+
+Lemma pa_step_bad n a k w : tm_bad n a k = true -> pa_step n a k w = Err 400.
+Proof.
+  intros H. pose proof H as H0. unfold tm_bad in H0. apply andb_true_iff in H0. destruct H0 as [Hn _].
+  apply String.eqb_eq in Hn. unfold pa_step. rewrite Hn. simpl.
+  rewrite (tm_fails _ n a k H). reflexivity.
+Qed.
+
+Lemma pa_fails w0 n a k : pa_bad n a k = true -> unmarshal_param_filter w0 n a k = Err 400.
+Proof.
+  unfold pa_bad, unmarshal_param_filter. intros H. apply andb_true_iff in H. destruct H as [_ H].
+  destruct (negb _); [reflexivity|].
+  pose proof (assign_o4 pa_set o4_pa_set a w0) as A. destruct (assign_attrs pa_set w0 a); simpl in *; try congruence; try tauto.
+  apply (walk_fail pa_step tm_bad o4_pa_step pa_step_bad); exact H.
+Qed.
+
+Lemma pf_set_bad l v w : bad_test_attr l v = true -> pf_set l v w = Err 400.
+Proof.
+  unfold bad_test_attr, pf_set. intros H. apply andb_true_iff in H. destruct H as [Hl Hv].
+  apply String.eqb_eq in Hl; subst l. apply none_not_some in Hv. simpl.
+  rewrite (bad_test_fails _ Hv). reflexivity.
+Qed.
+
+Lemma pf_step_bad n a k w : (tm_bad n a k || pa_bad n a k) = true -> pf_step n a k w = Err 400.
+Proof.
+  intros H. apply orb_true_iff in H. destruct H as [H|H].
+  - pose proof H as H0. unfold tm_bad in H0. apply andb_true_iff in H0. destruct H0 as [Hn _].
+    apply String.eqb_eq in Hn. unfold pf_step. rewrite Hn. simpl. rewrite (tm_fails _ n a k H). reflexivity.
+  - pose proof H as H0. unfold pa_bad in H0. apply andb_true_iff in H0. destruct H0 as [Hn _].
+    apply String.eqb_eq in Hn. unfold pf_step. rewrite Hn. simpl. rewrite (pa_fails _ n a k H). reflexivity.
+Qed.
+
+Lemma pf_fails w0 n a k : pf_bad n a k = true -> unmarshal_prop_filter w0 n a k = Err 400.
+Proof.
+  unfold pf_bad, unmarshal_prop_filter. intros H. apply andb_true_iff in H. destruct H as [_ H].
+  destruct (negb _); [reflexivity|]. apply orb_true_iff in H. destruct H as [H|H].
+  - rewrite (assign_fail pf_set bad_test_attr o4_pf_set pf_set_bad a w0 H). reflexivity.
+  - pose proof (assign_o4 pf_set o4_pf_set a w0) as A. destruct (assign_attrs pf_set w0 a); simpl in *; try congruence; try tauto.
+    apply (walk_fail pf_step _ o4_pf_step pf_step_bad); exact H.
+Qed.
+
+Lemma f_set_bad l v w : bad_test_attr l v = true -> f_set l v w = Err 400.
+Proof.
+  unfold bad_test_attr, f_set. intros H. apply andb_true_iff in H. destruct H as [Hl Hv].
+  apply String.eqb_eq in Hl; subst l. apply none_not_some in Hv. simpl.
+  rewrite (bad_test_fails _ Hv). reflexivity.
+Qed.
+
+Lemma f_step_bad n a k w : pf_bad n a k = true -> f_step n a k w = Err 400.
+Proof.
+  intros H. pose proof H as H0. unfold pf_bad in H0. apply andb_true_iff in H0. destruct H0 as [Hn _].
+  apply String.eqb_eq in Hn. unfold f_step. rewrite Hn. simpl. rewrite (pf_fails _ n a k H). reflexivity.
+Qed.
+
+Lemma f_fails w0 n a k : f_bad n a k = true -> unmarshal_filter w0 n a k = Err 400.
+Proof.
+  unfold f_bad, unmarshal_filter. intros H. apply andb_true_iff in H. destruct H as [_ H].
+  destruct (negb _); [reflexivity|]. apply orb_true_iff in H. destruct H as [H|H].
+  - rewrite (assign_fail f_set bad_test_attr o4_f_set f_set_bad a w0 H). reflexivity.
+  - pose proof (assign_o4 f_set o4_f_set a w0) as A. destruct (assign_attrs f_set w0 a); simpl in *; try congruence; try tauto.
+    apply (walk_fail f_step _ o4_f_step f_step_bad); exact H.
+Qed.
+
+Lemma q_step_bad n a k w : f_bad n a k = true -> q_step n a k w = Err 400.
+Proof.
+  intros H. pose proof H as H0. unfold f_bad in H0. apply andb_true_iff in H0. destruct H0 as [Hn _].
+  apply String.eqb_eq in Hn. unfold q_step, qname_eqb. cbn [fst snd]. rewrite Hn.
+  replace (String.eqb "filter" "prop") with false by reflexivity.
+  replace (String.eqb "filter" "allprop") with false by reflexivity.
+  replace (String.eqb "filter" "propname") with false by reflexivity.
+  rewrite !andb_false_r. simpl. rewrite (f_fails _ n a k H). reflexivity.
+Qed.
+
+(** C09_enumerations, wire-to-backend direction *)
+Theorem server_refuses_invalid_enum up path d :
+  doc_bad_enum d = true -> handle_report up path d = Err 400.
+Proof.
+  destruct d as [n a k| |]; simpl; try discriminate. intros H. apply andb_true_iff in H. destruct H as [Hn H].
+  change (NS_CARD, "addressbook-query") with (C "addressbook-query"). rewrite Hn.
+  unfold unmarshal_query. apply qname_eqb_spec in Hn. subst n.
+  replace (check_name NS_CARD "addressbook-query" (C "addressbook-query")) with true by reflexivity. cbn [negb].
+  rewrite (walk_fail q_step f_bad o4_q_step q_step_bad k wq_zero H). reflexivity.
+Qed.
+
+(** ** the documents written for raw requests with an invalid enumeration value *)
+
+Lemma kids_bad_app badk l1 l2 : kids_bad badk (l1 ++ l2) = kids_bad badk l1 || kids_bad badk l2.
+Proof. unfold kids_bad. apply existsb_app. Qed.
+
+Lemma kids_bad_map {A} badk (f : A -> xtree) (g : A -> bool) l :
+  (forall x, g x = true -> match f x with Elem n a k => badk n a k | _ => false end = true) ->
+  existsb g l = true -> kids_bad badk (map f l) = true.
+Proof.
+  intros H E. apply existsb_exists in E. destruct E as [x [Hin Hx]].
+  unfold kids_bad. apply existsb_exists. exists (f x). split; [apply in_map, Hin|apply H, Hx].
+Qed.
+
+Lemma write_tm_bad t :
+  tm_enum_bad t = true -> tm_bad (C "text-match")
+    (opt_attr "negate-condition" (xt_negate t) ++ opt_attr "match-type" (xt_match t)) (text_kid (xt_text t)) = true.
+Proof.
+  unfold tm_enum_bad, tm_bad, attrs_bad. destruct t as [s ng mt]. cbn [xt_negate xt_match xt_text snd C].
+  intros H. replace (String.eqb "text-match" "text-match") with true by reflexivity. cbn [andb].
+  rewrite existsb_app. apply orb_true_iff in H. destruct H as [H|H].
+  - destruct ng as [v|]; [|discriminate]. cbn [opt_attr existsb plain_attr fst snd]. unfold bad_tm_attr.
+    replace (String.eqb "negate-condition" "negate-condition") with true by reflexivity.
+    cbn [andb]. rewrite H. reflexivity.
+  - destruct mt as [v|]; [|discriminate]. cbn [opt_attr existsb plain_attr fst snd]. unfold bad_tm_attr at 2.
+    replace (String.eqb "match-type" "match-type") with true by reflexivity.
+    replace (String.eqb "match-type" "negate-condition") with false by reflexivity.
+    cbn [andb orb]. rewrite H. rewrite !orb_true_r. reflexivity.
+Qed.
+
+Lemma write_tm_bad' t :
+  tm_enum_bad t = true ->
+  match write_tm t with Elem n a k => tm_bad n a k | _ => false end = true.
+Proof. intros H. unfold write_tm. apply write_tm_bad, H. Qed.
+
+Lemma write_param_bad p :
+  param_enum_bad p = true ->
+  match write_param p with Elem n a k => pa_bad n a k | _ => false end = true.
+Proof.
+  unfold param_enum_bad, write_param, pa_bad. destruct (xp_cond p) as [| |t]; try discriminate.
+  intros H. cbn [snd C]. replace (String.eqb "param-filter" "param-filter") with true by reflexivity.
+  cbn [andb kids_bad existsb]. rewrite (write_tm_bad' t H). reflexivity.
+Qed.
+
+Lemma write_pf_bad f :
+  pf_enum_bad f = true ->
+  match write_pf f with Elem n a k => pf_bad n a k | _ => false end = true.
+Proof.
+  unfold pf_enum_bad, write_pf, pf_bad. intros H. cbn [snd C].
+  replace (String.eqb "prop-filter" "prop-filter") with true by reflexivity. cbn [andb].
+  apply orb_true_iff in H. apply orb_true_iff. destruct H as [H|H].
+  - left. destruct (xf_test f) as [v|]; [|discriminate]. unfold attrs_bad, bad_test_attr.
+    cbn [opt_attr existsb plain_attr fst snd].
+    replace (String.eqb "test" "test") with true by reflexivity. cbn [andb]. rewrite H. rewrite orb_true_r. reflexivity.
+  - right. destruct (xf_cond f) as [|tms ps]; [discriminate|]. rewrite kids_bad_app.
+    apply orb_true_iff in H. apply orb_true_iff. destruct H as [H|H]; [left|right].
+    + apply (kids_bad_map _ write_tm tm_enum_bad); [|exact H].
+      intros x Hx. pose proof (write_tm_bad' x Hx) as B. destruct (write_tm x); try discriminate. rewrite B. reflexivity.
+    + apply (kids_bad_map _ write_param param_enum_bad); [|exact H].
+      intros x Hx. pose proof (write_param_bad x Hx) as B. destruct (write_param x); try discriminate.
+      rewrite B. rewrite orb_true_r. reflexivity.
+Qed.
+
+Lemma write_query_bad q : enum_bad (XQuery q) = true -> doc_bad_enum (write_query q) = true.
+Proof.
+  unfold enum_bad, write_query, doc_bad_enum. intros H.
+  rewrite qname_eqb_refl. cbn [andb]. rewrite !kids_bad_app. apply orb_true_iff; right. apply orb_true_iff; left.
+  cbn [kids_bad existsb]. rewrite orb_false_r. unfold f_bad. cbn [snd C].
+  replace (String.eqb "filter" "filter") with true by reflexivity. cbn [andb].
+  apply orb_true_iff in H. apply orb_true_iff. destruct H as [H|H]; [left|right].
+  - destruct (xq_test q) as [v|]; [|discriminate]. unfold attrs_bad, bad_test_attr.
+    cbn [opt_attr existsb plain_attr fst snd].
+    replace (String.eqb "test" "test") with true by reflexivity. cbn [andb]. rewrite H. reflexivity.
+  - apply (kids_bad_map _ write_pf pf_enum_bad); [|exact H]. intros x Hx. apply write_pf_bad, Hx.
+Qed.
+
+(** C09_enumerations for the reference's documents: a raw request with a string outside
+    the value lists as test, match-type or negate-condition is not read by the RFC
+    reader (C09_rfc_reads_exactly_conformant) and is refused by the server *)
+Theorem server_refuses_written_invalid_enum up path x :
+  enum_bad x = true -> handle_report up path (rfc_write_raw x) = Err 400.
+Proof.
+  intros H. apply server_refuses_invalid_enum. destruct x as [q|m]; [|discriminate].
+  apply write_query_bad, H.
+Qed.
+
+(* ------------------------------------------------------------------------- *)
+(** * Defaults.  The reference's own documents carry no namespace declaration at all,
+      so every conformant raw request — each attribute absent or written out — reaches
+      the backend as the request it denotes. *)
+
+Lemma existsb_false {A} (f : A -> bool) l : (forall x, In x l -> f x = false) -> existsb f l = false.
+Proof. induction l; simpl; intros H; auto. rewrite H, IHl; auto. Qed.
+
+Lemma write_tm_nc t : collides (write_tm t) = false.
+Proof.
+  unfold write_tm. cbn [collides]. destruct t as [s ng mt]. cbn [xt_negate xt_match xt_text].
+  unfold text_kid. destruct ng, mt, (str_empty s); reflexivity.
+Qed.
+
+Lemma write_param_nc p : collides (write_param p) = false.
+Proof.
+  unfold write_param. cbn [collides]. replace (attr_collides _ _) with false by reflexivity. cbn [orb].
+  destruct (xp_cond p); cbn [existsb]; rewrite ?write_tm_nc; reflexivity.
+Qed.
+
+Lemma existsb_map_nc {A} (f : A -> xtree) l : (forall x, collides (f x) = false) -> existsb collides (map f l) = false.
+Proof. intros H. induction l; simpl; auto. rewrite H, IHl. reflexivity. Qed.
+
+Lemma write_pf_nc f : collides (write_pf f) = false.
+Proof.
+  unfold write_pf. cbn [collides].
+  replace (attr_collides _ _) with false by (destruct (xf_test f); reflexivity). cbn [orb].
+  destruct (xf_cond f); [reflexivity|]. rewrite existsb_app.
+  rewrite (existsb_map_nc write_tm _ write_tm_nc), (existsb_map_nc write_param _ write_param_nc). reflexivity.
+Qed.
+
+Lemma write_item_nc i : collides (write_item i) = false.
+Proof.
+  destruct i as [d|n]; [|reflexivity]. unfold write_item, write_data. cbn [collides].
+  replace (attr_collides _ _) with false by reflexivity. cbn [orb].
+  destruct d; [reflexivity|]. apply existsb_map_nc. intros; reflexivity.
+Qed.
+
+Lemma write_sel_nc s : existsb collides (write_sel s) = false.
+Proof.
+  destruct s; try reflexivity. cbn [write_sel existsb collides].
+  replace (attr_collides _ _) with false by reflexivity. cbn [orb].
+  rewrite (existsb_map_nc write_item _ write_item_nc). reflexivity.
+Qed.
+
+Lemma rfc_write_raw_nc x : collides (rfc_write_raw x) = false.
+Proof.
+  destruct x as [q|m]; cbn [rfc_write_raw].
+  - unfold write_query. cbn [collides]. replace (attr_collides _ _) with false by reflexivity. cbn [orb].
+    rewrite !existsb_app, write_sel_nc. cbn [orb existsb collides].
+    replace (attr_collides (attr_fields (C "filter")) _) with false by (destruct (xq_test q); reflexivity).
+    cbn [orb]. rewrite (existsb_map_nc write_pf _ write_pf_nc). cbn [orb].
+    destruct (xq_limit q) as [s|]; [|reflexivity]. unfold write_limit, text_kid. destruct (str_empty s); reflexivity.
+  - unfold write_multiget. cbn [collides]. replace (attr_collides _ _) with false by reflexivity. cbn [orb].
+    rewrite existsb_app, write_sel_nc. cbn [orb]. apply existsb_map_nc.
+    intros h. unfold text_kid. destruct (str_empty h); reflexivity.
+Qed.
+
+Theorem server_denotes_raw up path x r c :
+  validate x = Some r -> limit_fits r = true -> backend_call_of up path r = Some c ->
+  exists o, handle_report up path (rfc_write_raw x) = Ok o /\ canon_outcome o = c.
+Proof.
+  intros V Hl Hb. apply (server_denotes_read up path _ r c); auto.
+  - apply (rfc_read_write_conformant x r V).
+  - apply rfc_write_raw_nc.
+Qed.
+
+(** C09_defaults *)
+Theorem defaults :
+  (* the reference: an absent attribute is the RFC's default *)
+  val_test None = Some AnyOf /\ val_match None = Some Contains /\ val_negate None = Some false /\
+  (* the public API: the zero values of FilterTest and MatchType denote the defaults *)
+  den_test "" = Some AnyOf /\ den_match "" = Some Contains /\
+  (* a text-match / prop-filter / filter without the attribute denotes what the one with
+     the default written out denotes ... *)
+  (forall s, val_tm (mkXT s None None) = val_tm (mkXT s (Some "no") (Some "contains"))) /\
+  (forall n c, val_pf (mkXF n None c) = val_pf (mkXF n (Some "anyof") c)) /\
+  (forall sel fs l, val_query (mkXQ sel None fs l) = val_query (mkXQ sel (Some "anyof") fs l)) /\
+  (* ... and both spellings reach the backend as that request *)
+  (forall up path x r c,
+     validate x = Some r -> limit_fits r = true -> backend_call_of up path r = Some c ->
+     exists o, handle_report up path (rfc_write_raw x) = Ok o /\ canon_outcome o = c).
+Proof.
+  repeat (split; [reflexivity|]). exact server_denotes_raw.
+Qed.
+
+Theorem enumerations_valid :
+  (forall v t, val_test (Some v) = Some t -> unmarshal_filter_test v = Ok v /\ v = test_str t) /\
+  (forall v m, val_match (Some v) = Some m -> unmarshal_match_type v = Ok v /\ v = match_str m) /\
+  (forall v x, val_negate (Some v) = Some x -> unmarshal_negate v = Ok x) /\
+  (forall v, val_test (Some v) = None -> unmarshal_filter_test v = Err 400) /\
+  (forall v, val_match (Some v) = None -> unmarshal_match_type v = Err 400) /\
+  (forall v, val_negate (Some v) = None -> unmarshal_negate v = Err 400).
+Proof.
+  split; [exact test_agree|]. split; [exact match_agree|]. split; [exact negate_agree|].
+  split; [exact bad_test_fails|]. split; [exact bad_match_fails|exact bad_negate_fails].
+Qed.
